@@ -160,12 +160,15 @@ def intsKey (l : List Int) : String := ",".intercalate (l.map toString)
 def sortInts (l : List Int) : List Int := (l.toArray.qsort (· < ·)).toList
 
 /-- code of an error callback (they all come from the final drain): -1 / -3 the reader's reason
-(failure of the output stream), isRunning() false / true inside the callback; -4 / -5 clean end of
-the stream (`errNoOutcome`), isRunning() false / true -/
+(failure of the output stream), isRunning() false / true inside the callback; -4 clean end of the
+stream (`errNoOutcome`).  After a clean end the exit hook of the process stores `terminated`
+concurrently with the drain — even between two callbacks of the same drain, which is one atomic
+step of the model — so what isRunning() says inside those callbacks (the harness reports it as
+-4 / -5) is not compared. -/
 def errCode (drain : Option (Bool × Bool)) : Int :=
   match drain with
   | some (true, false) => -1 | some (true, true) => -3
-  | some (false, false) => -4 | some (false, true) => -5
+  | some (false, _) => -4
   | none => -1
 
 def cbInts (x : X) (i : Nat) : List Int :=
@@ -270,7 +273,7 @@ def handle : Handler := fun op inp impl =>
       let late := str (field o "late")
       let lateCbs := nat (field o "lateCbs")
       let hang := str (field o "hang")
-      let key := obsKey rets (cbs.map sortInts) runAtDone wait running late lateCbs
+      let key := obsKey rets (cbs.map fun l => sortInts (l.map fun v => if v == -5 then -4 else v)) runAtDone wait running late lateCbs
       let perReq := (List.range n).all fun i =>
         Spec.reqOK (sc.names i) (classOfRet (rets.getD i "")) ((cbs.getD i []).map cbOfInt)
       let causal := (List.range n).all fun i => (cbs.getD i []).all fun v => v < 0 || scriptAnswers acts v.toNat
